@@ -23,6 +23,11 @@ type c19Case struct {
 	Src  string
 	Lang int
 	Conc *c19Conc `json:",omitempty"`
+	// Global: the host has called the package-level SetParseErrorLanguage(Global) (the VM's own setting must still win)
+	Global int `json:",omitempty"`
+	// Custom: the VM has host-registered custom dice whose text is multi-byte / spans a line break (regex 暗骰(\d+), E(\d+);
+	// stream parser for M<LF><digits>)
+	Custom bool `json:",omitempty"`
 }
 
 var errTokens = []string{
@@ -57,6 +62,24 @@ func c19Enumerate(tier string, seed int64, emit func(string, any)) {
 	})
 	if thorough {
 		gen.Strings(errTokens[:24], 4, func(s string) { one(s) })
+	}
+	// the package-level selector set by the host to either language: every VM setting still decides its own messages
+	gen.StringsUpTo(errTokens, 2, func(s string) {
+		for lang := 0; lang < 3; lang++ {
+			for g := 1; g <= 2; g++ {
+				emit("sequential/package-level selector set", c19Case{Src: s, Lang: lang, Global: g})
+			}
+		}
+	})
+	// host-registered custom dice in front of the error position
+	for _, pre := range []string{"", "(1+", "[", "(1 +\n ", "1 + ", "x = ", "`{", "技能 + ", "\n\n", "[1, ", "xf(", "{'k': "} {
+		for _, op := range []string{"暗骰6", "暗骰66", "E5", "M\n6", "暗骰6\n", "(暗骰6)", "暗骰6 + M\n7"} {
+			for _, tail := range []string{" + ", " +* 2", ")", "]", ",", " ? ", "'abc", " (", "\n+ (", " + [1,", "}", " x y"} {
+				for lang := 0; lang < 3; lang++ {
+					emit("sequential/custom dice before the error", c19Case{Src: pre + op + tail, Lang: lang, Custom: true})
+				}
+			}
+		}
 	}
 	c19ConcEnumerate(tier, emit)
 }
@@ -224,6 +247,30 @@ func c19Run(raw json.RawMessage) harn.Result {
 	cfg := drv.AllOn()
 	cfg.Lang = c.Lang
 	vm := drv.NewVM(cfg)
+	if c.Global != 0 {
+		ds.SetParseErrorLanguage(c.Global)
+		defer ds.SetParseErrorLanguage(0)
+	}
+	if c.Custom {
+		five := func(ctx *ds.Context, groups []string, payload any) (*ds.VMValue, string, error) { return ds.NewIntVal(5), "", nil }
+		_ = vm.RegCustomDice(`暗骰(\d+)`, five)
+		_ = vm.RegCustomDice(`E(\d+)`, five)
+		_ = vm.RegCustomDiceParser(func(ctx *ds.Context, st *ds.CustomDiceStream) (*ds.CustomDiceParseResult, error) {
+			if r, ok := st.Read(); !ok || r != 'M' {
+				st.ResetAttempt()
+				return &ds.CustomDiceParseResult{Matched: false}, nil
+			}
+			if r, ok := st.Read(); !ok || r != '\n' {
+				st.ResetAttempt()
+				return &ds.CustomDiceParseResult{Matched: false}, nil
+			}
+			if _, ok := st.ReadDigits(); !ok {
+				st.ResetAttempt()
+				return &ds.CustomDiceParseResult{Matched: false}, nil
+			}
+			return &ds.CustomDiceParseResult{Matched: true}, nil
+		}, five)
+	}
 	var err error
 	if site, p := harn.Guard(func() { err = vm.Parse(c.Src) }); p {
 		res.Violations = append(res.Violations, harn.Violation{Signature: site, What: fmt.Sprintf("panic parsing %q", c.Src)})
